@@ -128,6 +128,8 @@ type OpSpec struct {
 	IniOpts  int        `json:"iniopts"`
 	Complete string     `json:"complete"`
 	Attach   *AttachSpec `json:"attach,omitempty"`
+	Path     []int       `json:"path,omitempty"`
+	Hidden   bool        `json:"hidden,omitempty"`
 }
 
 type Scenario struct {
@@ -171,6 +173,16 @@ func (c Custom) MarshalFlag() (string, error) {
 type Comp string
 
 var compWords = []string{"alpha", "alpine", "beta", "be ta", "gamma", "-dash", "--ddash"}
+
+// UnmarshalFlag has a pointer receiver and Comp has no value-receiver method at all: the value type's method set is
+// empty, so go-flags finds the Unmarshaler only through the address of the field.
+func (c *Comp) UnmarshalFlag(v string) error {
+	if strings.HasPrefix(v, "!") {
+		return errors.New("comp: rejected " + v)
+	}
+	*c = Comp(v)
+	return nil
+}
 
 func (c *Comp) Complete(match string) []flags.Completion {
 	var ret []flags.Completion
